@@ -186,7 +186,7 @@ def describe(res, path):
 
 
 def canon_args(args):
-    return tuple(sorted((k, canon_value(parse_value(t))) for k, t in (args or {}).items()))
+    return tuple(sorted((k.strip(), canon_value(parse_value(t))) for k, t in (args or {}).items()))
 
 
 # ---------------------------------------------------------------------------------------------
@@ -350,7 +350,15 @@ def coerce_variables(sm, op, raw):
     """CoerceVariableValues -> dict, or raises Reject (request error)"""
     out = {}
     for name, ttext, default in op.get("vars", []):
+        # directives on variable definitions are carried inside the texts by mc.gen.mutations
+        ttext = ttext.split(" @")[0]
+        if " = " in ttext:
+            ttext, default = ttext.split(" = ", 1)
+        if default is not None:
+            default = default.split(" @")[0]
         t = S.parse_type(ttext)
+        if S.kind_of(sm, S.named_of(t)) is None:
+            raise Unsupported("variable of unknown type")
         if not S.is_input(sm, S.named_of(t)):
             raise Reject("variable of non-input type")
         if name not in raw:
@@ -369,6 +377,7 @@ def coerce_variables(sm, op, raw):
 def coerce_arguments(sm, argdefs, given, variables):
     """CoerceArgumentValues -> dict (python names == names); raises Reject (field error)"""
     out = {}
+    given = {k.strip(): v for k, v in (given or {}).items()}
     for an, a in argdefs.items():
         t = S.parse_type(a["type"])
         default = a["default"]
